@@ -12,7 +12,7 @@ LEVEL = "exploration"
 DESIGN_REF = "DESIGN.md section 4 / C02"
 CHUNK = 16
 RULE = ("(a) the complete C01 letter space for n<=2 (exact gradient), the n=2 letter space "
-        "under each finite-difference mode and translated so that a bound is exactly 0.0, and 12 non-convex objectives x box {box, mixed} "
+        "under each finite-difference mode and translated so that a bound is exactly 0.0 or with the box written as a list of (min,max) pairs with +-inf / None, and 12 non-convex objectives x box {box, mixed} "
         "x start {face, vertex} x jac {callable,None,2-point,3-point,cs} x maxls {1,3,20} x "
         "maxfun {5,50,3000} x user letter {pure, scribble, samebuf}; (b) all environment "
         "runs with <= D deviations among the first K distinct points; (c) a linear objective "
@@ -52,6 +52,10 @@ def cases(tier, variants):
         for jac in ("callable", "2-point"):
             yield from F.convex_cases(2, variants, (3,), fams=("qp",), hesses=("rot2",),
                                       extra=dict(part="e1", jac=jac, zero=z))
+    for rep in ("pairs", "none"):
+        for jac in ("callable", "2-point"):
+            yield from F.convex_cases(2, variants, (3,), fams=("qp",), hesses=("rot2",),
+                                      extra=dict(part="e1", jac=jac, brep=rep))
     if tier == "thorough":
         yield from F.convex_cases(3, variants[:1], (2,), hesses=("rot2",),
                                   extra=dict(part="e1", jac="callable"))
@@ -80,7 +84,7 @@ def cases(tier, variants):
 
 def inbox(x, lb, ub):
     x = np.asarray(x, dtype=float)
-    return not ((x < lb).any() or (x > ub).any() or (x[lb == ub] != lb[lb == ub]).any())
+    return bool(((x >= lb) & (x <= ub)).all() and not (x[lb == ub] != lb[lb == ub]).any())
 
 
 def judge(obs, its, res, lb, ub):
